@@ -27,6 +27,7 @@ Definition page {A} (offset limit : Z) (l : list A) : list A :=
 (* ---------- operations and observations ---------- *)
 Inductive sop :=
 | SStore (r : record)
+| SStoreFail (r : record)         (* a Store that returns an error (a statement of its transaction failed): nothing is committed *)
 | SLookup (run : N)
 | SLatest (wf fid : N)
 | SOutbox (wf : N) (limit : Z)
@@ -35,6 +36,7 @@ Inductive sop :=
 
 Inductive sobs :=
 | ObOk
+| ObErr
 | ObRec (r : option record)
 | ObOutbox (l : list oentry)
 | ObList (l : list record).
@@ -56,6 +58,7 @@ Definition ref_step (s : rstore) (o : sop) : rstore * sobs :=
   match o with
   | SStore r =>
     (mkRstore (r_upsert (rs_recs s) r) (rs_outbox s ++ [route (rs_noid s) r]) (rs_noid s + 1)%N, ObOk)
+  | SStoreFail _ => (s, ObErr)
   | SLookup run => (s, ObRec (find_first (fun r => N.eqb (r_run r) run) (rs_recs s)))
   | SLatest wf fid => (s, ObRec (last_opt (filter (fun r => N.eqb (r_wf r) wf && N.eqb (r_fid r) fid) (rs_recs s))))
   | SOutbox wf limit => (s, ObOutbox (outbox_take wf limit (rs_outbox s)))
@@ -104,6 +107,7 @@ Definition mem_step (s : mstore) (o : sop) : mstore * sobs :=
               (if existed then ms_order s else ms_order s ++ [r_run r])
               (if existed then ms_key s else k_put (ms_key s) (r_wf r) (r_fid r) (r_run r))
               (ms_outbox s ++ [route (ms_noid s) r]) (ms_noid s + 1)%N, ObOk)
+  | SStoreFail _ => (s, ObErr)
   | SLookup run => (s, ObRec (m_get (ms_store s) run))
   | SLatest wf fid =>
     (s, ObRec (match k_get (ms_key s) wf fid with Some run => m_get (ms_store s) run | None => None end))
